@@ -28,6 +28,9 @@ ASSUMPTIONS = [
     "float arithmetic on the awkward contents (1e-7, 0.1, 1e22 …) is exact in the model: a formula value that "
     "differs from the implementation's only by IEEE rounding (relative 1e-12) is counted as float-inexact, not as "
     "a divergence; the sign of -0.0 is not modelled",
+    "the inexact-number stream compares the implementation with itself (original object vs loaded object): it says "
+    "nothing about the correctness of the values, only that persistence does not change them or their classes; in "
+    "its numpy variant a numpy float counts as the float it holds",
 ]
 
 CONTENT_POOL = [1e-7, 1e22, -0.0, 0.1, 123456789.125, 'true', 'null', '~', 'yes', '12', '1e3', '=notformula',
@@ -402,7 +405,15 @@ def run(ctx):
         "second stream saves models after evaluating a random subset of the cells in a random order (cell-map key "
         "order differs from the sorted order; unsaved cells read as blank after the load) with histories inside the "
         "saved cells; the extra_data cases compare the key order of a first and a second save of the same object "
-        "and the keys of the loaded extra_data")
+        "and the keys of the loaded extra_data. Source-hash stream: models compiled from an .xlsx FILE; the file is "
+        "left alone / rewritten with other contents / deleted between compile and save and again (or restored) "
+        "between load and re-save: _excel_file_md5_digest, hash_matches and the excel_hash of both documents must "
+        "be the hash recorded at compile time and hash_matches must agree with an independent md5 of the file on "
+        "disk (also replayed on the model). Inexact-number stream (implementation against implementation, no "
+        "model): constants 0.1, 2.5, 1e-7, 1e22, 1/3 ... among text/boolean/blank cells under SUM/AVERAGE/COUNT/"
+        "MAX/MIN and cell arithmetic x yml/json/pkl x histories of 6-10 set_value/evaluate: original vs loaded "
+        "compared after every operation by repr AND exact class of the returned value and of every cell value; "
+        "a variant writes one or two constants as numpy.float64 before the save")
     nwb = ctx.n(70, 800)
     nproc = 0
     batch = []          # correspondence cases (model = coq/Model/Persist.v)
@@ -676,5 +687,319 @@ def run(ctx):
                 comp.to_file(stem, file_types=(ext,))
                 corr['doc_again'] = parse_doc(stem + '.' + ext, ext)
                 batch.append(corr)
+    hash_stream(ctx, ExcelCompiler, batch)
+    inexact_stream(ctx, ExcelCompiler)
+    inexact_stream(ctx, ExcelCompiler, numpy_constants=True)
     correspondence(ctx, batch)
     shutil.rmtree(ctx.work, ignore_errors=True)
+
+
+# ------------------------------------------------------------------ settings: the source hash
+def hash_stream(ctx, ExcelCompiler, batch):
+    """Models compiled from an .xlsx FILE (so that a source hash exists); between compiling and saving, and again
+    between loading and re-saving, the workbook file is left alone / rewritten with other contents / deleted /
+    restored.  The hash recorded at compile time is what must travel: `_excel_file_md5_digest` and `hash_matches`
+    of the loaded model (and of a model loaded from a save of the loaded model) equal the original's, the text
+    documents carry that hash, and `hash_matches` says what an independent md5 of the file on disk says."""
+    from harness.common import jsonable
+    rng = ctx.rng
+    acts1 = ['untouched', 'modified', 'deleted']
+    acts2 = ['untouched', 'modified', 'deleted', 'restored']
+
+    def disk_hash(p):
+        return file_hash(p) if os.path.exists(p) else None
+
+    for k in range(ctx.n(18, 150)):
+        wb = wbgen.gen_workbook(rng, ncells=rng.randrange(4, 8), pool=wbgen.CLEAN_POOL)
+        desc = [(x['addr'], x.get('value'), x.get('text')) for x in wb.nodes]
+        ext = ['yml', 'json', 'pkl'][k % 3]
+        act1 = acts1[(k // 3) % 3] if k < 9 else rng.choice(acts1)
+        act2 = rng.choice(acts2)
+        case = dict(call='persist-hash', workbook=desc, args=[ext, act1, act2])
+        xlsx = os.path.join(ctx.work, f'hbook{k}.xlsx')
+        stem = os.path.join(ctx.work, f'h{k}')
+        ctx.count(('hash', k), kind=f'source-hash:{ext}:{act1}:{act2}', sample=case)
+
+        def rewrite(other):
+            """the workbook file with another value in its first input cell (or with the original contents)"""
+            i0 = wb.inputs()[0]
+            v = wb.nodes[i0]['value']
+            wb.to_openpyxl(inputs={i0: (v + 1000) if isinstance(v, int) and not isinstance(v, bool)
+                                   else 4242} if other else None).save(xlsx)
+
+        def apply(act, original_bytes):
+            if act == 'modified':
+                rewrite(True)
+            elif act == 'deleted':
+                if os.path.exists(xlsx):
+                    os.remove(xlsx)
+            elif act == 'restored':
+                with open(xlsx, 'wb') as f:
+                    f.write(original_bytes)
+
+        try:
+            rewrite(False)
+            original_bytes = open(xlsx, 'rb').read()
+            h0 = hashlib.md5(original_bytes).hexdigest()
+            orig = ExcelCompiler(filename=xlsx)
+            for i in wb.cells():
+                orig.evaluate(wb.nodes[i]['addr'])
+            if orig._excel_file_md5_digest != h0:
+                ctx.violation(dict(case, leg='compile'), "the hash recorded at compile time is not the md5 of the workbook file",
+                              impl=orig._excel_file_md5_digest, expected=h0)
+            apply(act1, original_bytes)
+            want_match = disk_hash(xlsx) == h0
+            if orig.hash_matches != want_match:
+                ctx.violation(dict(case, leg='original'), "hash_matches of the original disagrees with the file on disk",
+                              impl=orig.hash_matches, expected=want_match)
+            corr = corr_capture(orig, wb, ext, False)
+            orig.to_file(stem, file_types=(ext,))
+            fname = stem + '.' + ext
+            if ext != 'pkl':
+                doc = parse_doc(fname, ext)
+                if doc.get('excel_hash') != h0:
+                    ctx.violation(dict(case, leg='saved document'),
+                                  "the saved excel_hash is not the hash recorded when the model was compiled",
+                                  impl=doc.get('excel_hash'), expected=h0)
+            loaded = ExcelCompiler.from_file(fname)
+            if loaded._excel_file_md5_digest != orig._excel_file_md5_digest:
+                ctx.violation(dict(case, leg='loaded'), "the source hash does not survive the trip",
+                              impl=loaded._excel_file_md5_digest, expected=orig._excel_file_md5_digest)
+            if loaded.hash_matches != orig.hash_matches:
+                ctx.violation(dict(case, leg='loaded'), "hash_matches of the loaded model differs from the original's",
+                              impl=loaded.hash_matches, expected=orig.hash_matches)
+            if loaded.filename != orig.filename:
+                ctx.violation(dict(case, leg='loaded'), "workbook file name does not survive the trip",
+                              impl=loaded.filename, expected=orig.filename)
+            ops = [['eval', wb.nodes[i]['addr']] for i in wb.cells()]
+            want, got = run_ops(orig, ops), run_ops(loaded, ops)
+            if jsonable(want) != jsonable(got):
+                first = next(i for i, (a, b) in enumerate(zip(jsonable(got), jsonable(want))) if a != b)
+                ctx.violation(dict(case, history=ops[:first + 1]),
+                              "the loaded model answers a history differently from the original",
+                              impl=got[first], expected=want[first])
+            # ---- a save of the loaded model, wherever the workbook file is by then
+            apply(act2, original_bytes)
+            want_match = disk_hash(xlsx) == h0
+            loaded.to_file(stem + '_again', file_types=(ext,))
+            doc2 = None
+            if ext != 'pkl':
+                doc2 = parse_doc(stem + '_again.' + ext, ext)
+                if doc2.get('excel_hash') != h0:
+                    ctx.violation(dict(case, leg='document saved by the loaded model'),
+                                  "re-saving a loaded model does not keep the source hash",
+                                  impl=doc2.get('excel_hash'), expected=h0)
+            l2 = ExcelCompiler.from_file(stem + '_again.' + ext)
+            if l2._excel_file_md5_digest != h0:
+                ctx.violation(dict(case, leg='reloaded (saved by the loaded model)'),
+                              "re-saving a loaded model does not keep the source hash",
+                              impl=l2._excel_file_md5_digest, expected=h0)
+            for name, m in (('original', orig), ('loaded', loaded), ('reloaded (saved by the loaded model)', l2)):
+                if m.hash_matches != want_match:
+                    ctx.violation(dict(case, leg=name, after=act2),
+                                  f"hash_matches of the {name} model disagrees with the file on disk",
+                                  impl=m.hash_matches, expected=want_match)
+            if corr is not None:
+                corr.update(case=case, k=('hash', k), place='same', astral=False, ops=ops, want=jsonable(want),
+                            got=jsonable(got), meta=dict(cycles=jsonable(loaded.cycles), filename=loaded.filename))
+                if ext != 'pkl':
+                    corr['doc'], corr['doc2'] = doc, doc2
+                batch.append(corr)
+        except Exception as exc:      # noqa: BLE001
+            ctx.violation(dict(case, leg='exception'), f"compile/save/load raises {type(exc).__name__}: {exc}"[:200])
+        finally:
+            for f in os.listdir(ctx.work):
+                if f.startswith(f'h{k}.') or f.startswith(f'h{k}_again') or f == f'hbook{k}.xlsx':
+                    os.remove(os.path.join(ctx.work, f))
+
+
+# ------------------------------------------------------------------ numbers outside the float-exact domain
+INEXACT_POOL = [0.1, 0.2, 0.3, 0.7, 1.1, 2.5, 7.25, 1e-7, 1e-3, 1e16, 1e22, 1 / 3, 2 / 3, 123456789.125, 3, 7, -4,
+                4, 100, -0.1, 1e-7, 0.1, 2.5]
+INEXACT_OTHER = ['text', '12', True, False, None, '']
+INEXACT_AGGS = ['SUM', 'SUM', 'AVERAGE', 'COUNT', 'MAX', 'MIN']
+
+
+def typed(v, numpy_as_float=False):
+    """a value with the exact class of every scalar in it: ('builtins.float', '0.1') — a float subclass (ruamel's
+    ScalarFloat), a numpy scalar or a plain float holding the same number are three different things here.
+    numpy_as_float: a numpy float counts as the float it holds (streams that WRITE numpy constants: to_file saves
+    them as floats on purpose)."""
+    if isinstance(v, (tuple, list)):
+        return [type(v).__name__] + [typed(x, numpy_as_float) for x in v]
+    if numpy_as_float:
+        import numpy as np
+        if isinstance(v, np.floating):
+            v = float(v)
+    return [type(v).__module__ + '.' + type(v).__name__, repr(v)]
+
+
+def last_bits(a, b):
+    """two different observations (typed values / ['ok', typed value]) that are the same up to the rounding of the
+    floats in them (relative 1e-13)"""
+    def close(x, y):
+        if x == y:
+            return True
+        if not (isinstance(x, list) and isinstance(y, list) and len(x) == len(y) and x):
+            return False
+        if x[0] == y[0] and x[0] in ('tuple', 'list', 'ok'):
+            return all(close(p, q) for p, q in zip(x[1:], y[1:]))
+        numeric = ('builtins.float', 'builtins.int')
+        if x[0] in numeric and y[0] in numeric:
+            # a float result that is integral is handed out as an int: beyond 2**53 that int is a rounded float too
+            try:
+                if x[0] == 'builtins.int' == y[0] and max(abs(int(x[1])), abs(int(y[1]))) < 2 ** 53:
+                    return False
+                u, v = float(x[1]), float(y[1])
+                return abs(u - v) <= 1e-13 * max(abs(u), abs(v))
+            except Exception:      # noqa: BLE001
+                return False
+        return False
+    return a != b and close(a, b)
+
+
+@known_predicate('C03-numpy-float-constant')
+def _numpy_constant(case):
+    """a constant written as numpy.float64 before the save (to_file stores it as a float, so the loaded model holds
+    a plain float where the original holds the numpy scalar) and an observed float that differs from the
+    original's by rounding only; any other difference in this stream is NOT matched"""
+    return case.get('call') == 'persist-inexact' and bool(case.get('numpy_constants')) and \
+        case.get('diff') == 'float-last-bits'
+
+
+def inexact_stream(ctx, ExcelCompiler, numpy_constants=False):
+    """Implementation against implementation (no Coq model: the numbers are outside the float-exact domain): a
+    column of constants such as 0.1, 2.5, 1e-7, 1e22, 1/3 (some text / boolean / blank cells among them) under
+    SUM / AVERAGE / COUNT / MAX / MIN of ranges and cell arithmetic; the same history of set_value/evaluate on the
+    original and on the model loaded from yml, json and pkl; compared after every operation: repr AND exact class
+    of the returned value and of the value of every cell of the cell map.
+    numpy_constants: before the save one or two constants are overwritten with numpy.float64 values (what a caller
+    working with numpy passes to set_value; _to_text stores them as floats); numbers are non-negative there, so a
+    difference in rounding stays a difference in the last bits."""
+    rng = ctx.rng
+    pool = [v for v in INEXACT_POOL if v >= 0] if numpy_constants else INEXACT_POOL
+    tag = 'numpy-constants' if numpy_constants else 'inexact-numbers'
+    for k in range(ctx.n(24 if numpy_constants else 36, 400)):
+        nconst = rng.randrange(3, 8)
+        consts = [rng.choice(pool) if rng.random() < 0.85 else rng.choice(INEXACT_OTHER) for _ in range(nconst)]
+        if k % 4 == 0:          # the reported shape: a few floats of very different magnitude and an int under SUM
+            consts = rng.sample([2.5, 3, 1e-7, 0.1, 1e22, 1 / 3, 0.7], min(nconst, 7))
+        texts = []
+        nrows = nconst
+        for _ in range(rng.randrange(2, 5)):
+            r1 = rng.randrange(1, nrows)
+            r2 = rng.randrange(r1 + 1, nrows + 1)
+            agg = rng.choice(INEXACT_AGGS)
+            shape = rng.random()
+            if shape < 0.55:
+                t = f'={agg}(A{r1}:A{r2})'
+            elif shape < 0.7:
+                t = f'={agg}(A{r1}:A{r2})+A{rng.randrange(1, nrows + 1)}'
+            elif shape < 0.8:
+                t = f'={agg}(A{r1},A{r2},A{rng.randrange(1, nrows + 1)})'
+            elif shape < 0.9:
+                t = f'=A{r1}*A{r2}'
+            else:
+                t = f'=IF(COUNT(A{r1})=1,A{r1}+A{r2},"no")'
+            texts.append(t)
+            nrows += 1
+        if k % 4 == 0:
+            texts[0] = f'=SUM(A1:A{nconst})'
+        written = [[wbgen.cell_addr(r), rng.choice([v for v in pool if isinstance(v, float)])]
+                   for r in rng.sample(range(1, nconst + 1), rng.randrange(1, 3))] if numpy_constants else []
+
+        def build():
+            import openpyxl
+            owb = openpyxl.Workbook()
+            ws = owb.active
+            ws.title = wbgen.SHEET
+            for r, v in enumerate(consts, 1):
+                if v is not None:
+                    ws.cell(row=r, column=1, value=v)
+            for r, t in enumerate(texts, nconst + 1):
+                ws.cell(row=r, column=1, value=t)
+            return owb
+        addrs = [wbgen.cell_addr(r) for r in range(1, nrows + 1)]
+        desc = [(a, v, None) for a, v in zip(addrs, consts)] + [(a, None, t) for a, t in zip(addrs[nconst:], texts)]
+        ops = []
+        for _ in range(rng.randrange(6, 11)):
+            if rng.random() < 0.45:
+                ops.append(['set', addrs[rng.randrange(nconst)],
+                            rng.choice(pool) if rng.random() < 0.9 else rng.choice(INEXACT_OTHER)])
+            else:
+                ops.append(['eval', addrs[rng.randrange(nconst, nrows)]])
+        ops.append(['eval', addrs[nconst]])
+        if numpy_constants:      # look at every formula before the history overwrites the numpy constants
+            ops = [['eval', a] for a in addrs[nconst:]] + ops
+        for ext in ('yml', 'json', 'pkl'):
+            case = dict(call='persist-inexact', workbook=desc, args=[ext, 'plain', 'same'])
+            if numpy_constants:
+                case['numpy_constants'] = written      # set_value(addr, numpy.float64(value)) before the save
+            ctx.count((tag, k, ext), kind=f'{tag}:{ext}', sample=case if ext == 'yml' else None)
+            stem = os.path.join(ctx.work, f'x{k}')
+            try:
+                orig = ExcelCompiler(excel=build())
+                for a in addrs:
+                    orig.evaluate(a)
+                if written:
+                    import numpy as np
+                    for a, v in written:
+                        orig.set_value(a, np.float64(v))
+                    for a in addrs:
+                        orig.evaluate(a)
+                orig.to_file(stem, file_types=(ext,))
+                loaded = ExcelCompiler.from_file(stem + '.' + ext)
+                for a in addrs:           # both caches complete: the cell maps are comparable cell by cell
+                    loaded.evaluate(a)
+            except Exception as exc:      # noqa: BLE001
+                ctx.violation(dict(case, leg='save/load'), f"build/save/load raises {type(exc).__name__}: {exc}"[:200])
+                continue
+            finally:
+                for f in os.listdir(ctx.work):
+                    if f.startswith(f'x{k}.'):
+                        os.remove(os.path.join(ctx.work, f))
+
+            def snap(comp):
+                if numpy_constants:
+                    # writing the float a numpy constant holds changes the class of the value on the original only
+                    # (its dependants are reset there, not in the loaded model): compare complete caches
+                    for a in addrs:
+                        try:
+                            comp.evaluate(a)
+                        except Exception:      # noqa: BLE001  (the history leg reports it)
+                            pass
+                return {a: typed(c.value, numpy_constants) for a, c in comp.cell_map.items()}
+
+            def observe(comp, op):
+                try:
+                    if op[0] == 'eval':
+                        r = ['ok', typed(comp.evaluate(op[1]), numpy_constants)]
+                    else:
+                        comp.set_value(op[1], op[2])
+                        r = ['ok', None]
+                except Exception as exc:      # noqa: BLE001
+                    r = ['raise', type(exc).__name__]
+                return r, snap(comp)
+            for j in range(-1, len(ops)):
+                if j < 0:       # right after the load
+                    rw = rg = None
+                    sw, sg = snap(orig), snap(loaded)
+                else:
+                    (rw, sw), (rg, sg) = observe(orig, ops[j]), observe(loaded, ops[j])
+                hist = ops[:j + 1]
+                if rw != rg:
+                    rounding = numpy_constants and last_bits(rw, rg)
+                    ctx.violation(dict(case, history=hist, diff='float-last-bits' if rounding else 'other'),
+                                  "the loaded model answers a history differently from the original (repr / class of the value)",
+                                  impl=rg, expected=rw)
+                    if not rounding:
+                        break
+                if sw != sg:
+                    bad = sorted(set(sw) ^ set(sg)) or [a for a in sw if sw[a] != sg[a]]
+                    other = [a for a in bad if not (numpy_constants and last_bits(sw.get(a), sg.get(a)))]
+                    for a, kind in ([(other[0], 'other')] if other else [(bad[0], 'float-last-bits')]):
+                        ctx.violation(dict(case, history=hist, cell=a, diff=kind),
+                                      "a cell of the loaded model holds another value (repr / class) than the same cell of the original",
+                                      impl=sg.get(a), expected=sw.get(a))
+                    if other:
+                        break
